@@ -3765,3 +3765,419 @@ mod tests {
 		}, None));
 	}
 }
+
+/// Verification hooks (feature `_verif_hooks` only); see `ln::verif_hooks`. Thin public wrappers
+/// which let an external checker drive an [`OutboundPayments`] together with its pending-event
+/// queue operation by operation and read back its state.
+#[cfg(feature = "_verif_hooks")]
+pub mod verif_hooks_outbound {
+	use super::*;
+	use crate::ln::msgs::UpdateFailHTLC;
+	use crate::ln::onion_utils::LocalHTLCFailureReason;
+	use crate::ln::types::ChannelId;
+	use crate::util::logger::Record;
+	use bitcoin::secp256k1::ecdh::SharedSecret;
+	use std::collections::VecDeque;
+
+	/// See [`IDEMPOTENCY_TIMEOUT_TICKS`].
+	pub const IDEMPOTENCY_TIMEOUT_TICKS_HOOK: u8 = IDEMPOTENCY_TIMEOUT_TICKS;
+
+	struct NullLogger;
+	impl Logger for NullLogger {
+		fn log(&self, _record: Record) {}
+	}
+
+	/// A snapshot of one entry of `pending_outbound_payments`.
+	#[derive(Clone, Debug, PartialEq, Eq)]
+	pub struct PaymentDump {
+		pub payment_id: [u8; 32],
+		/// Variant name of the `PendingOutboundPayment`.
+		pub kind: &'static str,
+		/// Sorted.
+		pub session_privs: Vec<[u8; 32]>,
+		pub payment_hash: Option<[u8; 32]>,
+		/// `Some(n)` for `Retry::Attempts(n)`.
+		pub retry_attempts: Option<u32>,
+		/// Whether a retry strategy other than `Retry::Attempts` is set.
+		pub retry_other: bool,
+		pub attempts: u32,
+		pub has_payment_params: bool,
+		pub pending_amt_msat: Option<u64>,
+		pub pending_fee_msat: Option<u64>,
+		pub total_msat: Option<u64>,
+		pub remaining_max_total_routing_fee_msat: Option<u64>,
+		pub timer_ticks_without_htlcs: Option<u8>,
+		pub reason: Option<PaymentFailureReason>,
+		/// Remaining timer ticks of a `StaleExpiration::TimerTicks`.
+		pub expiration_ticks: Option<u64>,
+	}
+
+	/// How an HTLC failure handed to [`Harness::fail_htlc`] is produced.
+	pub enum FailSpec {
+		/// A failure generated locally (`HTLCFailReason::reason`).
+		Local(LocalHTLCFailureReason, Vec<u8>),
+		/// An encrypted failure packet built by the hop with the given index of the path and
+		/// wrapped by every hop before it. `hop_secrets` are the node secret keys of the path's
+		/// hops (at least up to `hop`), from which each hop derives its shared secret.
+		Remote { hop: usize, hop_secrets: Vec<SecretKey>, reason: LocalHTLCFailureReason, data: Vec<u8> },
+		/// A failure packet no hop of the path authenticates.
+		Garbage(Vec<u8>),
+	}
+
+	/// An [`OutboundPayments`] with its pending-event queue.
+	pub struct Harness {
+		inner: OutboundPayments,
+		pending_events: Mutex<VecDeque<(events::Event, Option<EventCompletionAction>)>>,
+		secp_ctx: Secp256k1<secp256k1::All>,
+		logger: NullLogger,
+	}
+
+	impl Harness {
+		pub fn new() -> Self {
+			Harness {
+				inner: OutboundPayments::new(new_hash_map()),
+				pending_events: Mutex::new(VecDeque::new()),
+				secp_ctx: Secp256k1::new(),
+				logger: NullLogger,
+			}
+		}
+
+		fn ctx(&self, id: PaymentId) -> WithContext<'_, NullLogger> {
+			WithContext::for_payment(&self.logger, None, None, None, id)
+		}
+
+		pub fn probing_cookie(payment_id: &PaymentId, probing_cookie_secret: [u8; 32]) -> PaymentHash {
+			probing_cookie_from_id(payment_id, probing_cookie_secret)
+		}
+
+		/// `OutboundPayments::send_payment`; `send_along_path` receives
+		/// `(path, payment_hash, payment_id, session_priv_bytes)`.
+		pub fn send_payment<R: Router, ES: EntropySource, NS: NodeSigner, SP>(
+			&self, payment_hash: PaymentHash, recipient_onion: RecipientOnionFields,
+			payment_id: PaymentId, retry_strategy: Retry, route_params: RouteParameters, router: &R,
+			entropy_source: &ES, node_signer: &NS, best_block_height: u32, send_along_path: SP,
+		) -> Result<(), RetryableSendFailure>
+		where
+			SP: Fn(&Path, &PaymentHash, PaymentId, [u8; 32]) -> Result<(), APIError>,
+		{
+			let logger = self.ctx(payment_id);
+			self.inner.send_payment(
+				payment_hash,
+				recipient_onion,
+				payment_id,
+				retry_strategy,
+				route_params,
+				router,
+				Vec::new(),
+				|| InFlightHtlcs::new(),
+				entropy_source,
+				node_signer,
+				best_block_height,
+				&self.pending_events,
+				|args: SendAlongPathArgs| {
+					send_along_path(
+						args.path,
+						args.payment_hash,
+						args.payment_id,
+						args.session_priv_bytes,
+					)
+				},
+				&logger,
+			)
+		}
+
+		/// `OutboundPayments::check_retry_payments`.
+		pub fn check_retry_payments<R: Router, ES: EntropySource, NS: NodeSigner, SP>(
+			&self, router: &R, entropy_source: &ES, node_signer: &NS, best_block_height: u32,
+			send_along_path: SP,
+		) -> bool
+		where
+			SP: Fn(&Path, &PaymentHash, PaymentId, [u8; 32]) -> Result<(), APIError>,
+		{
+			let logger = WithContext::from(&self.logger, None, None, None);
+			self.inner.check_retry_payments(
+				router,
+				|| Vec::new(),
+				|| InFlightHtlcs::new(),
+				entropy_source,
+				node_signer,
+				best_block_height,
+				&self.pending_events,
+				|args: SendAlongPathArgs| {
+					send_along_path(
+						args.path,
+						args.payment_hash,
+						args.payment_id,
+						args.session_priv_bytes,
+					)
+				},
+				&logger,
+			)
+		}
+
+		/// `OutboundPayments::needs_abandon_or_retry`.
+		pub fn needs_abandon_or_retry(&self) -> bool {
+			self.inner.needs_abandon_or_retry()
+		}
+
+		/// `OutboundPayments::add_new_pending_payment`; `Err(())` is `DuplicatePayment`.
+		pub fn add_new_pending_payment<ES: EntropySource>(
+			&self, payment_hash: PaymentHash, recipient_onion: RecipientOnionFields,
+			payment_id: PaymentId, route: &Route, retry_strategy: Option<Retry>, entropy_source: &ES,
+			best_block_height: u32,
+		) -> Result<Vec<[u8; 32]>, ()> {
+			self.inner
+				.add_new_pending_payment(
+					payment_hash,
+					recipient_onion,
+					payment_id,
+					None,
+					route,
+					retry_strategy,
+					entropy_source,
+					best_block_height,
+					None,
+				)
+				.map_err(|e| match e {
+					PaymentSendFailure::DuplicatePayment => (),
+					_ => panic!("add_new_pending_payment only fails with DuplicatePayment"),
+				})
+		}
+
+		/// `OutboundPayments::add_new_awaiting_invoice` with a `StaleExpiration::TimerTicks`.
+		pub fn add_new_awaiting_invoice(
+			&self, payment_id: PaymentId, timer_ticks: u64, retry_strategy: Retry,
+		) -> Result<(), ()> {
+			self.inner.add_new_awaiting_invoice(
+				payment_id,
+				StaleExpiration::TimerTicks(timer_ticks),
+				retry_strategy,
+				RouteParametersConfig::default(),
+				None,
+			)
+		}
+
+		/// `OutboundPayments::claim_htlc` (without an event completion action).
+		pub fn claim_htlc(
+			&self, payment_id: PaymentId, payment_preimage: PaymentPreimage,
+			session_priv: SecretKey, path: Path, from_onchain: bool,
+		) {
+			let logger = self.ctx(payment_id);
+			self.inner.claim_htlc(
+				payment_id,
+				payment_preimage,
+				None,
+				session_priv,
+				path,
+				from_onchain,
+				&mut None,
+				&self.pending_events,
+				&logger,
+			)
+		}
+
+		/// `OutboundPayments::finalize_claims`.
+		pub fn finalize_claims(&self, htlcs: Vec<(PaymentId, SecretKey, Path)>) {
+			let sources = htlcs.into_iter().map(|(payment_id, session_priv, path)| {
+				let first_hop_htlc_msat = path.final_value_msat() + path.fee_msat();
+				let source = HTLCSource::OutboundRoute {
+					path,
+					session_priv,
+					first_hop_htlc_msat,
+					payment_id,
+					bolt12_invoice: None,
+				};
+				(source, Vec::new())
+			});
+			self.inner.finalize_claims(sources, &self.pending_events)
+		}
+
+		/// `OutboundPayments::fail_htlc` (without a completion action).
+		pub fn fail_htlc(
+			&self, payment_id: PaymentId, payment_hash: PaymentHash, session_priv: SecretKey,
+			path: Path, failure: FailSpec, probing_cookie_secret: [u8; 32],
+		) {
+			let logger = self.ctx(payment_id);
+			let reason = match failure {
+				FailSpec::Local(reason, data) => HTLCFailReason::reason(reason, data),
+				FailSpec::Remote { hop, hop_secrets, reason, data } => {
+					let keys = onion_utils::construct_onion_keys(&self.secp_ctx, &path, &session_priv);
+					let shared_secrets: Vec<[u8; 32]> = keys
+						.iter()
+						.zip(hop_secrets.iter())
+						.map(|(key, secret)| SharedSecret::new(&key.ephemeral_pubkey, secret).secret_bytes())
+						.collect();
+					let mut packet = HTLCFailReason::reason(reason, data)
+						.get_encrypted_failure_packet(&shared_secrets[hop], &None);
+					for shared_secret in shared_secrets[..hop].iter().rev() {
+						let msg = UpdateFailHTLC {
+							channel_id: ChannelId([0; 32]),
+							htlc_id: 0,
+							reason: packet.data,
+							attribution_data: packet.attribution_data,
+						};
+						packet = HTLCFailReason::from_msg(&msg)
+							.get_encrypted_failure_packet(shared_secret, &None);
+					}
+					HTLCFailReason::from_msg(&UpdateFailHTLC {
+						channel_id: ChannelId([0; 32]),
+						htlc_id: 0,
+						reason: packet.data,
+						attribution_data: packet.attribution_data,
+					})
+				},
+				FailSpec::Garbage(data) => HTLCFailReason::from_msg(&UpdateFailHTLC {
+					channel_id: ChannelId([0; 32]),
+					htlc_id: 0,
+					reason: data,
+					attribution_data: None,
+				}),
+			};
+			let first_hop_htlc_msat = path.final_value_msat() + path.fee_msat();
+			let source = HTLCSource::OutboundRoute {
+				path: path.clone(),
+				session_priv,
+				first_hop_htlc_msat,
+				payment_id,
+				bolt12_invoice: None,
+			};
+			self.inner.fail_htlc(
+				&source,
+				&payment_hash,
+				&reason,
+				&path,
+				&session_priv,
+				&payment_id,
+				probing_cookie_secret,
+				&self.secp_ctx,
+				&self.pending_events,
+				&mut None,
+				&logger,
+			)
+		}
+
+		/// `OutboundPayments::abandon_payment`.
+		pub fn abandon_payment(&self, payment_id: PaymentId, reason: PaymentFailureReason) {
+			self.inner.abandon_payment(payment_id, reason, &self.pending_events)
+		}
+
+		/// `OutboundPayments::remove_stale_payments`.
+		pub fn remove_stale_payments(&self, duration_since_epoch: Duration) {
+			self.inner.remove_stale_payments(duration_since_epoch, &self.pending_events)
+		}
+
+		/// `OutboundPayments::insert_from_monitor_on_startup`.
+		pub fn insert_from_monitor_on_startup(
+			&self, payment_id: PaymentId, payment_hash: PaymentHash, session_priv_bytes: [u8; 32],
+			path: &Path, best_block_height: u32,
+		) {
+			let logger = self.ctx(payment_id);
+			self.inner.insert_from_monitor_on_startup(
+				payment_id,
+				payment_hash,
+				session_priv_bytes,
+				path,
+				best_block_height,
+				&logger,
+			)
+		}
+
+		/// The pending events, oldest first, each with whether a completion action is attached.
+		pub fn pending_events(&self) -> Vec<(events::Event, bool)> {
+			let events = self.pending_events.lock().unwrap();
+			events.iter().map(|(ev, act)| (ev.clone(), act.is_some())).collect()
+		}
+
+		/// Drops the `n` oldest pending events, as if the user had handled them.
+		pub fn handle_events(&self, n: usize) {
+			let mut events = self.pending_events.lock().unwrap();
+			for _ in 0..n {
+				if events.pop_front().is_none() {
+					break;
+				}
+			}
+		}
+
+		/// All entries of `pending_outbound_payments`, sorted by payment id.
+		pub fn dump(&self) -> Vec<PaymentDump> {
+			let outbounds = self.inner.pending_outbound_payments.lock().unwrap();
+			let mut res = Vec::new();
+			for (id, pmt) in outbounds.iter() {
+				let mut d = PaymentDump {
+					payment_id: id.0,
+					kind: "",
+					session_privs: Vec::new(),
+					payment_hash: pmt.payment_hash().map(|h| h.0),
+					retry_attempts: None,
+					retry_other: false,
+					attempts: 0,
+					has_payment_params: false,
+					pending_amt_msat: None,
+					pending_fee_msat: pmt.get_pending_fee_msat(),
+					total_msat: pmt.total_msat(),
+					remaining_max_total_routing_fee_msat: None,
+					timer_ticks_without_htlcs: None,
+					reason: None,
+					expiration_ticks: None,
+				};
+				let set_retry = |d: &mut PaymentDump, r: &Retry| match r {
+					Retry::Attempts(n) => d.retry_attempts = Some(*n),
+					_ => d.retry_other = true,
+				};
+				match pmt {
+					PendingOutboundPayment::Legacy { session_privs } => {
+						d.kind = "Legacy";
+						d.session_privs = session_privs.iter().cloned().collect();
+					},
+					PendingOutboundPayment::AwaitingOffer { .. } => d.kind = "AwaitingOffer",
+					PendingOutboundPayment::AwaitingInvoice { expiration, retry_strategy, .. } => {
+						d.kind = "AwaitingInvoice";
+						set_retry(&mut d, retry_strategy);
+						if let StaleExpiration::TimerTicks(t) = expiration {
+							d.expiration_ticks = Some(*t);
+						}
+					},
+					PendingOutboundPayment::InvoiceReceived { .. } => d.kind = "InvoiceReceived",
+					PendingOutboundPayment::StaticInvoiceReceived { .. } => {
+						d.kind = "StaticInvoiceReceived"
+					},
+					PendingOutboundPayment::Retryable {
+						retry_strategy,
+						attempts,
+						payment_params,
+						session_privs,
+						pending_amt_msat,
+						remaining_max_total_routing_fee_msat,
+						..
+					} => {
+						d.kind = "Retryable";
+						if let Some(r) = retry_strategy {
+							set_retry(&mut d, r);
+						}
+						d.attempts = attempts.count;
+						d.has_payment_params = payment_params.is_some();
+						d.session_privs = session_privs.iter().cloned().collect();
+						d.pending_amt_msat = Some(*pending_amt_msat);
+						d.remaining_max_total_routing_fee_msat = *remaining_max_total_routing_fee_msat;
+					},
+					PendingOutboundPayment::Fulfilled {
+						session_privs, timer_ticks_without_htlcs, ..
+					} => {
+						d.kind = "Fulfilled";
+						d.session_privs = session_privs.iter().cloned().collect();
+						d.timer_ticks_without_htlcs = Some(*timer_ticks_without_htlcs);
+					},
+					PendingOutboundPayment::Abandoned { session_privs, reason, .. } => {
+						d.kind = "Abandoned";
+						d.session_privs = session_privs.iter().cloned().collect();
+						d.reason = *reason;
+					},
+				}
+				d.session_privs.sort();
+				res.push(d);
+			}
+			res.sort_by(|a, b| a.payment_id.cmp(&b.payment_id));
+			res
+		}
+	}
+}
